@@ -56,6 +56,11 @@ TEXT = {
   level_text="Generated open/auth/close/add/remove/advance/scrape histories drive the real Prometheus collector under a synctest fake clock and every scrape is compared with a ledger of per-(IP,key) open intervals; because a fake clock cannot move between two statements, generated concurrent workloads (workers x scrapers x client pools x database latency) additionally run under the real clock, where the process must survive, counters must be monotone and the final totals must lie inside bounds derived from the workers' own timestamps.",
   level_note="Concurrent schedules are sampled; the fake-time engine uses Go 1.26 timer semantics.",
  ),
+ "C12": dict(
+  technique="stateful property-based testing (rapid) with history invariants over real sockets, each case repeated to sample schedules",
+  level_text="Generated acquire/close/pending-call/send/settle sequences on one shared address through the real ListenerManager (TCP and UDP sockets); invariants over the recorded history decide exactly-once delivery, nothing delivered to a handle closed before the call started, ErrClosed for pending and later calls, socket release, absence of leftover goroutines and closing of orphaned connections.",
+  level_note="The Go scheduler is not controlled: racing deliveries are sampled by running every case four times; absence of other interleavings is not established.",
+ ),
 }
 def _na():
     from checks_table import CHECKS
